@@ -562,6 +562,26 @@ template <> struct BackFacts<void> {
     }
 };
 
+// The library's own named unit for a period, where it has one (for ANY rep; CorrespondingQuantity itself uses the
+// named units only for the int64 chrono typedefs): a quantity-equivalent but differently typed spelling of the unit.
+template <std::intmax_t N, std::intmax_t D, class Fallback> struct NamedUnit { using type = Fallback; };
+template <class F> struct NamedUnit<1, 1000000000, F> { using type = au::Nano<au::Seconds>; };
+template <class F> struct NamedUnit<1, 1000000, F> { using type = au::Micro<au::Seconds>; };
+template <class F> struct NamedUnit<1, 1000, F> { using type = au::Milli<au::Seconds>; };
+template <class F> struct NamedUnit<1, 1, F> { using type = au::Seconds; };
+template <class F> struct NamedUnit<60, 1, F> { using type = au::Minutes; };
+template <class F> struct NamedUnit<3600, 1, F> { using type = au::Hours; };
+template <class To, class From, bool Ok = std::is_assignable<To&, From>::value>
+struct AssignConv {
+    static constexpr bool ok = true;
+    static To go(const From& f) { To t{}; t = f; return t; }
+};
+template <class To, class From>
+struct AssignConv<To, From, false> {
+    static constexpr bool ok = false;
+    static To go(const From&) { return To{}; }
+};
+
 // One duration type: rep R, period std::ratio<N, D> as written.
 template <class R, std::intmax_t N, std::intmax_t D>
 struct TI {
@@ -572,6 +592,8 @@ struct TI {
     using U = typename CQ::Unit;
     using GU = decltype(au::Seconds{} * (au::mag<PeriodW::num>() / au::mag<PeriodW::den>()));
     using GQ = au::Quantity<GU, R>;                                      // generic-unit quantity
+    using NU = typename NamedUnit<PeriodW::num, PeriodW::den, GU>::type;
+    using NQ = au::Quantity<NU, R>;                                      // named-unit quantity (equivalent, maybe another type)
     using ExpectBack = std::chrono::duration<R, typename Dur::period>;   // same rep, reduced period
     using Back = typename BackVia<CQ, ExpectBack>::type;
 
@@ -591,30 +613,32 @@ struct TI {
         s += " zero=" + Txt<R>::str(z.count()) + " zeroq_eq=" + b01(zq.in(U{}) == z.count());
         return s;
     }
+    static void add(std::string& s, const char* name, bool avail, R c, R v) {
+        s += std::string(" ") + name + "=" + (avail ? Txt<R>::str(c) : std::string("unavailable")) + ":" + b01(avail && same_bits(c, v));
+    }
     static std::string rt(const char* a) {
         const R v = Txt<R>::parse(a);
         const long u0 = g_ub;
         const Dur d{v};
-        const auto q = au::as_quantity(d);
-        const R c1 = q.in(U{});
-        const CQ q2 = ImplicitConv<CQ, Dur>::go(d);   // implicit constructor from the corresponding type
-        const R c2 = q2.in(U{});
-        const R c3 = BackVia<CQ, ExpectBack>::count(q);
-        const Dur d2 = ImplicitConv<Dur, CQ>::go(q);  // conversion operator to the corresponding type
-        const R c4 = d2.count();
-        const GQ gq = ImplicitConv<GQ, Dur>::go(d);   // generic spelling of the same unit
-        const R c5 = gq.in(GU{});
-        const Dur d3 = ImplicitConv<Dur, GQ>::go(gq);
-        const R c6 = d3.count();
-        const R c7 = BackVia<GQ, ExpectBack>::count(gq);
-        const bool avail[7] = {true, ImplicitConv<CQ, Dur>::ok, BackVia<CQ, ExpectBack>::ok, ImplicitConv<Dur, CQ>::ok,
-                               ImplicitConv<GQ, Dur>::ok, ImplicitConv<Dur, GQ>::ok, BackVia<GQ, ExpectBack>::ok};
+        Dur dl{v};                                     // non-const lvalue: CorrespondingQuantity<T&>
+        const auto q = au::as_quantity(d);             // const lvalue: CorrespondingQuantity<const T&>
         std::string s = "in=" + Txt<R>::str(v);
-        const R cs[7] = {c1, c2, c3, c4, c5, c6, c7};
-        const char* names[7] = {"asq", "ctor", "back", "conv", "gctor", "gconv", "gback"};
-        for (int i = 0; i < 7; ++i)
-            s += std::string(" ") + names[i] + "=" + (avail[i] ? Txt<R>::str(cs[i]) : std::string("unavailable")) + ":" +
-                 b01(avail[i] && same_bits(cs[i], v));
+        add(s, "asq", true, q.in(U{}), v);
+        add(s, "asq_lv", true, au::as_quantity(dl).in(U{}), v);
+        add(s, "asq_rv", true, au::as_quantity(Dur{v}).in(U{}), v);              // rvalue: CorrespondingQuantity<T>
+        add(s, "ctor", ImplicitConv<CQ, Dur>::ok, ImplicitConv<CQ, Dur>::go(d).in(U{}), v);   // implicit constructor
+        add(s, "assign_q", AssignConv<CQ, Dur>::ok, AssignConv<CQ, Dur>::go(d).in(U{}), v);   // q = d
+        add(s, "back", BackVia<CQ, ExpectBack>::ok, BackVia<CQ, ExpectBack>::count(q), v);    // as_chrono_duration
+        add(s, "conv", ImplicitConv<Dur, CQ>::ok, ImplicitConv<Dur, CQ>::go(q).count(), v);    // conversion operator
+        add(s, "assign_d", AssignConv<Dur, CQ>::ok, AssignConv<Dur, CQ>::go(q).count(), v);    // d = q
+        const GQ gq = ImplicitConv<GQ, Dur>::go(d);    // generic spelling of the same unit
+        add(s, "gctor", ImplicitConv<GQ, Dur>::ok, gq.in(GU{}), v);
+        add(s, "gconv", ImplicitConv<Dur, GQ>::ok, ImplicitConv<Dur, GQ>::go(au::make_quantity<GU>(v)).count(), v);
+        add(s, "gback", BackVia<GQ, ExpectBack>::ok, BackVia<GQ, ExpectBack>::count(au::make_quantity<GU>(v)), v);
+        const NQ nq = ImplicitConv<NQ, Dur>::go(d);    // the library's named unit (equivalent, differently typed)
+        add(s, "nctor", ImplicitConv<NQ, Dur>::ok, nq.in(NU{}), v);
+        add(s, "nconv", ImplicitConv<Dur, NQ>::ok, ImplicitConv<Dur, NQ>::go(au::make_quantity<NU>(v)).count(), v);
+        add(s, "nback", BackVia<NQ, ExpectBack>::ok, BackVia<NQ, ExpectBack>::count(au::make_quantity<NU>(v)), v);
         s += " ub=" + std::to_string(g_ub - u0);
         return s;
     }
@@ -682,13 +706,17 @@ struct SumFacts<X, Y, Q1, Q2, R1, R2, ChSum, false> {
 
 // One ordered pair of duration types with a mixed-operation shape:
 //   Side 0: Quantity(1) op duration(2);  Side 1: duration(1) op Quantity(2);
-//   Generic: the Quantity operand uses the generic unit spelling instead of the corresponding one.
-template <class A, class B, int Side, bool Generic>
+//   Spell: the Quantity operand is 0 = the corresponding quantity, 1 = the generic unit spelling,
+//          2 = the library's named unit where there is one (else generic).
+template <class T, int Spell> struct SpellQ { using type = typename T::CQ; };
+template <class T> struct SpellQ<T, 1> { using type = typename T::GQ; };
+template <class T> struct SpellQ<T, 2> { using type = typename T::NQ; };
+template <class A, class B, int Side, int Spell>
 struct PI {
     using D1 = typename A::Dur; using D2 = typename B::Dur;
     using R1 = typename A::Rep; using R2 = typename B::Rep;
-    using Q1 = typename std::conditional<Generic, typename A::GQ, typename A::CQ>::type;
-    using Q2 = typename std::conditional<Generic, typename B::GQ, typename B::CQ>::type;
+    using Q1 = typename SpellQ<A, Spell>::type;
+    using Q2 = typename SpellQ<B, Spell>::type;
     using L = typename std::conditional<Side == 0, Q1, D1>::type;
     using Rr = typename std::conditional<Side == 0, D2, Q2>::type;
     static L left(R1 a) { return Mk<L, R1>::f(a); }
@@ -738,6 +766,7 @@ struct PEntry { int id; std::string (*info)(); std::string (*run)(const char*, c
 '''
 
 HARNESS_MAIN = r'''
+#include <sys/resource.h>
 #include <sys/wait.h>
 #include <unistd.h>
 volatile long g_ub = 0;
@@ -748,20 +777,26 @@ int main() {
         char cmd = 0; int id = 0; static char a[1024], b[1024]; a[0] = b[0] = 0;
         int n = sscanf(line, " %c %d %1023s %1023s", &cmd, &id, a, b);
         std::string out = "bad";
-        if (n >= 2 && (cmd == 'I' || cmd == 'R')) {
+        if (n >= 2 && cmd == 'I') {
             for (int c = 0; c < n_tchunks; ++c) for (int i = 0; i < tchunk_sizes[c]; ++i) if (tchunks[c][i].id == id)
-                out = cmd == 'I' ? tchunks[c][i].info() : (n >= 3 ? tchunks[c][i].rt(a) : std::string("bad"));
+                out = tchunks[c][i].info();
         } else if (n >= 2 && cmd == 'J') {
             for (int c = 0; c < n_pchunks; ++c) for (int i = 0; i < pchunk_sizes[c]; ++i) if (pchunks[c][i].id == id)
                 out = pchunks[c][i].info();
-        } else if (n >= 4 && cmd == 'O') {
+        } else if ((n >= 4 && cmd == 'O') || (n >= 3 && cmd == 'R')) {
             // UBSan reports each source location once per process, so every evaluation runs in a
             // forked child: a sanitizer report is then attributable to this very input.
             fflush(stdout);
             pid_t pid = fork();
             if (pid == 0) {
-                for (int c = 0; c < n_pchunks; ++c) for (int i = 0; i < pchunk_sizes[c]; ++i) if (pchunks[c][i].id == id)
-                    out = pchunks[c][i].run(a, b);
+                struct rlimit rl; rl.rlim_cur = 30; rl.rlim_max = 40; setrlimit(RLIMIT_CPU, &rl);    // CPU seconds, not wall time
+                if (cmd == 'O') {
+                    for (int c = 0; c < n_pchunks; ++c) for (int i = 0; i < pchunk_sizes[c]; ++i) if (pchunks[c][i].id == id)
+                        out = pchunks[c][i].run(a, b);
+                } else {
+                    for (int c = 0; c < n_tchunks; ++c) for (int i = 0; i < tchunk_sizes[c]; ++i) if (tchunks[c][i].id == id)
+                        out = tchunks[c][i].rt(a);
+                }
                 printf("%c %d %s\n", cmd, id, out.c_str());
                 fflush(stdout);
                 _exit(0);
@@ -785,19 +820,67 @@ ACCEPT_COMMON = r'''
 #include <ratio>
 #include <type_traits>
 #include "au/chrono_interop.hh"
+#include "au/prefix.hh"
 #include "au/quantity.hh"
+#include "au/units/hours.hh"
+#include "au/units/minutes.hh"
+#include "au/units/seconds.hh"
+template <std::intmax_t N, std::intmax_t D, class Fallback> struct NamedUnit { using type = Fallback; };
+template <class F> struct NamedUnit<1, 1000000000, F> { using type = au::Nano<au::Seconds>; };
+template <class F> struct NamedUnit<1, 1000000, F> { using type = au::Micro<au::Seconds>; };
+template <class F> struct NamedUnit<1, 1000, F> { using type = au::Milli<au::Seconds>; };
+template <class F> struct NamedUnit<1, 1, F> { using type = au::Seconds; };
+template <class F> struct NamedUnit<60, 1, F> { using type = au::Minutes; };
+template <class F> struct NamedUnit<3600, 1, F> { using type = au::Hours; };
 template <class R, std::intmax_t N, std::intmax_t D>
 struct TI {
+    using Rep = R;
     using Dur = std::chrono::duration<R, std::ratio<N, D>>;
     using CQ = decltype(au::as_quantity(std::declval<Dur>()));
     using GU = decltype(au::Seconds{} * (au::mag<std::ratio<N, D>::num>() / au::mag<std::ratio<N, D>::den>()));
     using GQ = au::Quantity<GU, R>;
+    using NU = typename NamedUnit<std::ratio<N, D>::num, std::ratio<N, D>::den, GU>::type;
+    using NQ = au::Quantity<NU, R>;
 };
-struct AEntry { int t, s; bool dur, qty, cons, assign, chrono, back; };
-// target quantity: generic unit of T;  source: duration S
-#define ACC(t, s, T, S) { t, s, std::is_convertible<S::Dur, T::GQ>::value, std::is_convertible<S::CQ, T::GQ>::value, \
-    std::is_constructible<T::GQ, S::Dur>::value, std::is_assignable<T::GQ&, S::Dur>::value, \
-    std::is_convertible<S::Dur, T::Dur>::value, std::is_convertible<S::GQ, T::Dur>::value }
+template <class R, bool I = std::is_integral<R>::value> struct PV { static void p(R v) { printf("%lld", (long long)v); } };
+template <class R> struct PV<R, false> { static void p(R v) { printf("%a", (double)v); } };
+template <class U, class R> R count_of(au::Quantity<U, R> q) { return q.in(U{}); }
+template <class R, class P> R count_of(std::chrono::duration<R, P> d) { return d.count(); }
+template <class U, class R, class V> au::Quantity<U, R> make_like(au::Quantity<U, R>*, V v) { return au::make_quantity<U>(static_cast<R>(v)); }
+template <class R, class P, class V> std::chrono::duration<R, P> make_like(std::chrono::duration<R, P>*, V v) { return std::chrono::duration<R, P>{static_cast<R>(v)}; }
+// values produced by an accepted implicit conversion From -> To, for the counts 1, -3, 7
+template <class To, class From, bool Ok = std::is_convertible<From, To>::value>
+struct Vals {
+    static void p() {
+        const int vs[3] = {1, -3, 7};
+        for (int i = 0; i < 3; ++i) {
+            const To t = make_like(static_cast<From*>(nullptr), vs[i]);
+            if (i) printf(",");
+            PV<decltype(count_of(t))>::p(count_of(t));
+        }
+    }
+};
+template <class To, class From> struct Vals<To, From, false> { static void p() { printf("-"); } };
+// target: quantity types of T (generic unit GQ, named unit NQ) and T's duration;  source: duration S / quantity of S
+template <class T, class S>
+struct Acc {
+    static void row(int t, int s) {
+        printf("%d %d dur=%d qty=%d cons=%d assign=%d chrono=%d back=%d durn=%d", t, s,
+               (int)std::is_convertible<typename S::Dur, typename T::GQ>::value,
+               (int)std::is_convertible<typename S::CQ, typename T::GQ>::value,
+               (int)std::is_constructible<typename T::GQ, typename S::Dur>::value,
+               (int)std::is_assignable<typename T::GQ&, typename S::Dur>::value,
+               (int)std::is_convertible<typename S::Dur, typename T::Dur>::value,
+               (int)std::is_convertible<typename S::GQ, typename T::Dur>::value,
+               (int)std::is_convertible<typename S::Dur, typename T::NQ>::value);
+        printf(" dq_val="); Vals<typename T::GQ, typename S::Dur>::p();
+        printf(" dn_val="); Vals<typename T::NQ, typename S::Dur>::p();
+        printf(" qd_val="); Vals<typename T::Dur, typename S::GQ>::p();
+        printf("\n");
+    }
+};
+struct AEntry { int t, s; void (*row)(int, int); };
+#define ACC(t, s, T, S) { t, s, &Acc<T, S>::row }
 '''
 
 
@@ -826,7 +909,7 @@ def write_value_harness(wd, types, pairs, nchunks):
             f.write(HARNESS_COMMON)
             f.write(f"extern const PEntry ptable{ci}[] = {{\n")
             for pr in ch:
-                inst = f"PI<{ti(pr['a'])}, {ti(pr['b'])}, {pr['side']}, {'true' if pr['generic'] else 'false'}>"
+                inst = f"PI<{ti(pr['a'])}, {ti(pr['b'])}, {pr['side']}, {SPELL_ID[pr['spell']]}>"
                 f.write(f"  {{ {pr['id']}, &{inst}::info, &{inst}::run }},\n")
             f.write("};\n")
         files.append(p)
@@ -908,13 +991,12 @@ def write_accept_harness(wd, types, cells, nchunks=8):
         files.append(p)
     p = os.path.join(wd, "accmain.cc")
     with open(p, "w") as f:
-        f.write("#include <cstdio>\nstruct AEntry { int t, s; bool dur, qty, cons, assign, chrono, back; };\n")
+        f.write("#include <cstdio>\nstruct AEntry { int t, s; void (*row)(int, int); };\n")
         for ci in range(len(chunks)):
             f.write(f"extern const AEntry atable{ci}[]; extern const int asize{ci};\n")
         f.write("int main() {\n")
         for ci in range(len(chunks)):
-            f.write(f"  for (int i = 0; i < asize{ci}; ++i) {{ const AEntry& e = atable{ci}[i]; "
-                    f"printf(\"%d %d dur=%d qty=%d cons=%d assign=%d chrono=%d back=%d\\n\", e.t, e.s, e.dur, e.qty, e.cons, e.assign, e.chrono, e.back); }}\n")
+            f.write(f"  for (int i = 0; i < asize{ci}; ++i) {{ const AEntry& e = atable{ci}[i]; e.row(e.t, e.s); }}\n")
         f.write("  return 0;\n}\n")
     files.append(p)
     return files
@@ -924,12 +1006,12 @@ AU_DIAG = ("Value outside range of destination type", "Dangerous conversion for 
            "Cannot represent non-integer in integral destination type")
 
 
-def probe_src(kind, a, b, side=0, generic=False):
+def probe_src(kind, a, b, side=0, spell="c"):
     """Negative probes: programs that must be rejected by the compiler."""
     head = HARNESS_COMMON + "volatile long g_ub = 0;\n"
     A, B = ti(a), ti(b)
     if kind == "op":
-        inst = f"PI<{A}, {B}, {side}, {'true' if generic else 'false'}>"
+        inst = f"PI<{A}, {B}, {side}, {SPELL_ID[spell]}>"
         return head + f"int main() {{ return (int){inst}::run(\"1\", \"1\").size(); }}\n"
     if kind == "trait-dur":       # target a (generic quantity), source duration b
         return head + f"int main() {{ return std::is_convertible<{B}::Dur, {A}::GQ>::value; }}\n"
@@ -979,26 +1061,46 @@ def explore(tier, seed, rng, wd):
     corr = [kv(l) for l in drv.ask([f"c17corr {t['rep']} {t['n']} {t['d']}" for t in types])]
 
     # ---- pair instances -----------------------------------------------------------------------
-    def side_code(pr):
-        return {(0, True): "qd", (1, True): "dq", (0, False): "cd", (1, False): "dc"}[(pr["side"], pr["generic"])]
+    side_code = side_code_of
 
     rep_pairs = [(a, b) for a in REPS for b in REPS]
     per_pp = 2 if tier == "quick" else 4
     pairs = []
     byrp = {(t["rep"], t["n"], t["d"]): t for t in types}
+    shapes = [(sd, sp) for sp in "cqn" for sd in (0, 1)]          # operand order x unit spelling: cycled per rep pair
+    cyc = {rp: rng.randrange(6) for rp in rep_pairs}
+
+    def add_pair(r1, p1, r2, p2, side=None, spell=None, directed=False):
+        if side is None:
+            side, spell = shapes[cyc[(r1, r2)] % 6]
+            cyc[(r1, r2)] += 1
+        pairs.append({"id": len(pairs), "a": byrp[(r1,) + p1], "b": byrp[(r2,) + p2], "side": side, "spell": spell,
+                      "directed": directed})
+    # directed: identical types (chrono's identical-type common_type, Au's same-type hidden friends), both orders
+    milli, sec = (1, 1000), (1, 1)
+    for r in REPS:
+        add_pair(r, milli, r, milli, 0, "n", True)
+        add_pair(r, sec, r, sec, 1, "c", True)
+    # directed: each std::chrono typedef (int64 rep, named period) as the duration operand, on the left and on the right,
+    # against a quantity in another named unit spelled with the library's unit type, rep rotating
+    named = [p for p in NAMED if p in periods]
+    for i, p in enumerate(named):
+        other = named[(i + 2) % len(named)]
+        r = REPS[i % 4]
+        add_pair("i64", p, r, other, 1, "n", True)        # std::chrono::X{..} op au::unit(..)
+        add_pair(r, other, "i64", p, 0, "n", True)        # au::unit(..) op std::chrono::X{..}
     k = rng.randrange(16)
     for p1 in periods:
         for p2 in periods:
             chosen = [rep_pairs[(k + j * 5) % 16] for j in range(per_pp)]     # 5 is coprime to 16: all pairs in turn
             k += per_pp * 5 + 1
             for (r1, r2) in chosen:
-                pairs.append({"id": len(pairs), "a": byrp[(r1,) + p1], "b": byrp[(r2,) + p2],
-                              "side": rng.randrange(2), "generic": rng.random() < 0.4})
+                add_pair(r1, p1, r2, p2)
     stats["pairs_total"] = len(pairs)
 
     def ops_req(pr, x1, x2):
         a, b = pr["a"], pr["b"]
-        return (f"c17ops {side_code(pr)} {a['rep']} {a['n']} {a['d']} {to_lean(a['rep'], x1)} "
+        return (f"c17ops {model_shape(side_code(pr))} {a['rep']} {a['n']} {a['d']} {to_lean(a['rep'], x1)} "
                 f"{b['rep']} {b['n']} {b['d']} {to_lean(b['rep'], x2)}")
 
     # the model decides which pair instances are well-formed in Au (policy static_assert)
@@ -1027,12 +1129,26 @@ def explore(tier, seed, rng, wd):
         a, b = pr["a"], pr["b"]
         pr["vals"] = gen_value_pairs(rng, a["rep"], (a["n"], a["d"]), b["rep"], (b["n"], b["d"]), nvals)
     rtv = {t["id"]: rt_values(rng, t["rep"], 12 if tier == "quick" else 60) for t in types}
+    # non-finite / signed-zero operands (floating reps): judged against std::chrono's own answer only (not modelled)
+    for pr in compiling:
+        fa, fb = not is_int(pr["a"]["rep"]), not is_int(pr["b"]["rep"])
+        sp = []
+        if fa:
+            sp += [("nan", 1), ("inf", 1), ("-inf", -2), ("-0x0p+0", 0)]
+        if fb:
+            sp += [(1, "nan"), (1, "inf"), (3, "-inf"), (0, "-0x0p+0")]
+        if fa and fb:
+            sp += [("inf", "inf"), ("inf", "-inf"), ("nan", "nan"), ("-0x0p+0", "-0x0p+0")]
+        conv = lambda rep, x: x if isinstance(x, str) else (x if is_int(rep) else Fraction(x))
+        pr["vals"] += [(conv(pr["a"]["rep"], x), conv(pr["b"]["rep"], y)) for (x, y) in sp]
 
     lap("gen_values")
     # ---- model answers -----------------------------------------------------------------------
     mreq, mkey = [], []
     for pr in compiling:
         for (x1, x2) in pr["vals"]:
+            if isinstance(x1, str) or isinstance(x2, str):
+                continue
             mreq.append(ops_req(pr, x1, x2))
             mkey.append((pr["id"], x1, x2))
     mans = dict(zip(mkey, drv.ask(mreq)))
@@ -1074,7 +1190,8 @@ def explore(tier, seed, rng, wd):
     rest = [("g++", "c++17", "g17"), ("clang++-14", "c++14", "c14"), ("clang++-14", "c++17", "c17")]
     configs.append(cxx20[seed % 2])
     if tier == "quick":
-        configs.append(rest[seed % 3])
+        # one more C++14/17 configuration; with g++ -std=c++20 above it is a clang one, so every run has both compilers
+        configs.append(rest[1 + (seed // 2) % 2] if seed % 2 == 0 else rest[seed % 3])
     else:
         configs += [cxx20[(seed + 1) % 2], rest[seed % 3], rest[(seed + 1) % 3]]
         configs.append(("g++", "c++14", "g14o1"))        # one optimised build (-O1) of a third of the pair instances
@@ -1088,10 +1205,10 @@ def explore(tier, seed, rng, wd):
         # in the quick tier the second configuration builds a third of the pair instances
         if ci == 0 or (tier != "quick" and tag != "g14o1"):
             use = compiling
-        elif tier == "quick" and ci == 2:
-            use = compiling[2::6]
         else:
-            use = compiling[1::3]
+            directed = [p for p in compiling if p.get("directed")]
+            rest_pairs = [p for p in compiling if not p.get("directed")]
+            use = directed + (rest_pairs[2::6] if (tier == "quick" and ci == 2) else rest_pairs[1::3])
         fl = files if use is compiling else write_value_harness(os.path.join(wd), types, use, 16)
         # -O0 (the sanitizer-instrumented build is 3x faster than -O1); thorough adds one -O1 build of a third of the pairs
         opt = "-O1" if tag == "g14o1" else "-O0"
@@ -1128,6 +1245,13 @@ def explore(tier, seed, rng, wd):
                     violations.append({"what": "harness rejected a request", "class": "harness-bad", "no_input": True,
                                        "broken": "harness protocol", "rec": {"kind": "protocol", "line": l, "config": cfg}})
                     continue
+                if a.startswith("crashed"):
+                    who = type_key(byid[ident]) if cmd == "R" else type_key(pbyid[ident]["a"]) + " | " + type_key(pbyid[ident]["b"])
+                    violations.append({"what": f"the harness process died (signal / CPU limit) while evaluating request `{l}` ({who})",
+                                       "class": "crash-" + cmd, "rec": {"kind": "crash", "line": l, "config": cfg, "where": who}})
+                    if cmd == "O":
+                        vi[ident] = vi.get(ident, 0) + 1
+                    continue
                 r = kv(a)
                 if cmd == "I":
                     check_type_info(byid[ident], corr[ident], r, cfg, violations, stats, samples)
@@ -1140,7 +1264,10 @@ def explore(tier, seed, rng, wd):
                     i = vi.get(ident, 0)
                     vi[ident] = i + 1
                     x1, x2 = pr["vals"][i]
-                    check_op(pr, x1, x2, r, mans[(ident, x1, x2)], cfg, violations, stats, samples, distinct)
+                    if isinstance(x1, str) or isinstance(x2, str):
+                        check_op_special(pr, x1, x2, r, cfg, violations, stats)
+                    else:
+                        check_op(pr, x1, x2, r, mans[(ident, x1, x2)], cfg, violations, stats, samples, distinct)
             stats["sanitizer_reports"] = stats.get("sanitizer_reports", 0) + sum(e.count("runtime error") for e in errs)
             lap("compare_" + tag)
         # acceptance traits (no run-time arithmetic: built without sanitizers)
@@ -1166,16 +1293,16 @@ def explore(tier, seed, rng, wd):
     probes = []
     rng.shuffle(rejected)
     for pr in rejected[:nprobe]:
-        probes.append(("op", pr["a"], pr["b"], pr["side"], pr["generic"], "mixed operation rejected by the policy"))
+        probes.append(("op", pr["a"], pr["b"], pr["side"], pr["spell"], "mixed operation rejected by the policy"))
     falses = [(t, s) for (t, s) in cells_ok if amodel[(t, s)]["dur"] == "false"]
     rng.shuffle(falses)
     for (t, s) in falses[:nprobe // 2]:
-        probes.append(("site", byid[t], byid[s], 0, False, "copy-initialisation the traits call non-convertible"))
+        probes.append(("site", byid[t], byid[s], 0, "c", "copy-initialisation the traits call non-convertible"))
 
     def do_probe(args):
-        i, (kind, a, b, side, generic, what) = args
+        i, (kind, a, b, side, spell, what) = args
         p = os.path.join(wd, f"probe{i}.cc")
-        open(p, "w").write(probe_src(kind, a, b, side, generic))
+        open(p, "w").write(probe_src(kind, a, b, side, spell))
         rc, out = cxx(p, None, san=False, syntax_only=True)
         return kind, a, b, what, rc, out
     for kind, a, b, what, rc, out in pmap(do_probe, list(enumerate(probes))):
@@ -1253,6 +1380,13 @@ def check_type_info(t, m, r, cfg, violations, stats, samples):
         samples.append({"request": f"c17corr {t['rep']} {t['n']} {t['d']}", "model": m, "harness": r})
 
 
+# every entry point of the round trip: as_quantity on const lvalue / lvalue / rvalue, implicit constructor and
+# assignment from the duration, as_chrono_duration, conversion operator and assignment to the duration, and the same
+# through the generic (g) and the library's named (n) spelling of the unit
+RT_ROUTES = ("asq", "asq_lv", "asq_rv", "ctor", "assign_q", "back", "conv", "assign_d", "gctor", "gconv", "gback",
+             "nctor", "nconv", "nback")
+
+
 def check_rt(t, vtxt, r, rans, rtv, cfg, violations, stats, samples):
     stats["rt_cases"] += 1
     base = {"kind": "rt", "rep": t["rep"], "period": f"{t['n']}/{t['d']}", "count": vtxt, "config": cfg}
@@ -1260,7 +1394,7 @@ def check_rt(t, vtxt, r, rans, rtv, cfg, violations, stats, samples):
     if special:
         stats["rt_nonfinite_cases"] += 1
     # oracle: every route returns the very same bits, no sanitizer report
-    for k in ("asq", "ctor", "back", "conv", "gctor", "gconv", "gback"):
+    for k in RT_ROUTES:
         val, same = r[k].rsplit(":", 1)
         if same != "1":
             violations.append({"what": f"round trip ({k}) changes the count: in={r['in']} out={val}", "class": f"oracle-rt-{k}",
@@ -1288,35 +1422,52 @@ def check_rt(t, vtxt, r, rans, rtv, cfg, violations, stats, samples):
         samples.append({"request": f"c17rt {t['rep']} {t['n']} {t['d']} {vs}", "model": m, "harness": r})
 
 
+SPELL_ID = {"c": 0, "q": 1, "n": 2}
+
+
 def side_code_of(pr):
-    return {(0, True): "qd", (1, True): "dq", (0, False): "cd", (1, False): "dc"}[(pr["side"], pr["generic"])]
+    """Shape of a pair instance: quantity spelling letter (c = corresponding quantity, q = generic unit, n = the
+    library's named unit) and d = duration, left operand first."""
+    return pr["spell"] + "d" if pr["side"] == 0 else "d" + pr["spell"]
+
+
+def model_shape(shape):
+    """The model knows corresponding (c) and generic (q) spellings; a named unit has the generic magnitude."""
+    return shape.replace("n", "q")
+
+
+def shape_parts(shape):
+    side = 0 if shape[1] == "d" else 1
+    return side, (shape[0] if side == 0 else shape[1])
 
 
 OP_SYM = {"eq": "==", "ne": "!=", "lt": "<", "le": "<=", "gt": ">", "ge": ">=", "add": "+", "sub": "-"}
 
 
-def operand_text(t, as_quantity, generic):
+def operand_text(t, as_quantity, spell):
     """C++ spelling of one operand, for messages and records."""
     dur = f"std::chrono::duration<{CTYPE[t['rep']]}, std::ratio<{t['n']}, {t['d']}>>"
     if not as_quantity:
         return dur + "{x}"
-    if generic:
-        n, d = norm((t["n"], t["d"]))
+    n, d = norm((t["n"], t["d"]))
+    if spell == "n" and (n, d) in NAMED:
+        return f"au::make_quantity<au::{NAMED[(n, d)]}>({CTYPE[t['rep']]}{{x}})"
+    if spell in ("q", "n"):
         return f"au::make_quantity<decltype(au::Seconds{{}} * (au::mag<{n}>() / au::mag<{d}>()))>({CTYPE[t['rep']]}{{x}})"
     return f"au::as_quantity({dur}{{x}})"
 
 
 def expression_text(pr, op):
     a, b = pr["a"], pr["b"]
-    lhs = operand_text(a, pr["side"] == 0, pr["generic"])
-    rhs = operand_text(b, pr["side"] == 1, pr["generic"])
+    lhs = operand_text(a, pr["side"] == 0, pr["spell"])
+    rhs = operand_text(b, pr["side"] == 1, pr["spell"])
     return f"{lhs} {OP_SYM[op]} {rhs}"
 
 
 def check_pair_info(pr, r, cfg, violations, stats):
     a, b = pr["a"], pr["b"]
     m = pr["model"]
-    base = {"kind": "pair", "a": type_key(a), "b": type_key(b), "side": pr["side"], "generic": pr["generic"], "config": cfg}
+    base = {"kind": "pair", "a": type_key(a), "b": type_key(b), "shape": side_code_of(pr), "config": cfg}
     k1, k2, g = scale_factors((a["n"], a["d"]), (b["n"], b["d"]))
     gtxt = f"{g.numerator}/{g.denominator}"
     bad = []
@@ -1360,7 +1511,7 @@ def check_op(pr, x1, x2, r, mline, cfg, violations, stats, samples, distinct):
     stats["op_cases"] += 1
     stats["op_evaluations"] += 8
     stats["by_crep"][cr] = stats["by_crep"].get(cr, 0) + 1
-    sc = {(0, True): "qd", (1, True): "dq", (0, False): "cd", (1, False): "dc"}[(pr["side"], pr["generic"])]
+    sc = side_code_of(pr)
     stats["by_side"][sc] = stats["by_side"].get(sc, 0) + 1
     k1, k2, _ = scale_factors(p1, p2)
     stats["k_classes"]["both_one" if k1 == k2 == 1 else ("both_scaled" if k1 > 1 and k2 > 1 else "one_scaled")] += 1
@@ -1429,6 +1580,24 @@ def check_op(pr, x1, x2, r, mline, cfg, violations, stats, samples, distinct):
                         "model": mline, "harness": " ".join(f"{k}={v}" for k, v in r.items())})
 
 
+def check_op_special(pr, x1, x2, r, cfg, violations, stats):
+    """Operands that are NaN, infinite or -0.0: Au must give exactly what std::chrono gives (text comparison keeps
+    the sign of zero; every NaN prints as `nan`)."""
+    a, b = pr["a"], pr["b"]
+    stats["special_value_cases"] = stats.get("special_value_cases", 0) + 1
+    stats["op_evaluations"] += 8
+    base = {"kind": "op", "a": type_key(a), "b": type_key(b), "x1": to_cxx(a["rep"], x1), "x2": to_cxx(b["rep"], x2),
+            "shape": side_code_of(pr), "config": cfg, "special": True}
+    for op in OPS:
+        au, ch = r[f"au_{op}"], r[f"ch_{op}"]
+        if au == "unavailable":
+            continue
+        if au != ch:
+            violations.append({"what": f"mixed {op} on non-finite / signed-zero operands ({base['x1']}, {base['x2']}): Au answers {au}, "
+                                       f"std::chrono answers {ch}", "class": f"oracle-op-special-{op}",
+                               "rec": dict(base, op=op, au=au, chrono=ch)})
+
+
 def check_accept(t, s, r, m, cfg, violations, stats, samples):
     base = {"kind": "accept", "target": type_key(t), "source": type_key(s), "config": cfg}
     want = accept_oracle(t["rep"], (t["n"], t["d"]), s["rep"], (s["n"], s["d"]))
@@ -1444,6 +1613,30 @@ def check_accept(t, s, r, m, cfg, violations, stats, samples):
         violations.append({"what": f"implicit acceptance {r['dur']} contradicts the documented rule (integer factor k with 2147*k <= max, "
                                    f"floats always): expected {want}", "class": "oracle-accept-formula",
                            "rec": dict(base, observable="accept-formula", impl=r)})
+    if r["back"] != r["dur"] or r["durn"] != r["dur"]:
+        violations.append({"what": f"acceptance depends on the spelling / direction: duration -> generic-unit quantity {r['dur']}, "
+                                   f"duration -> named-unit quantity {r['durn']}, quantity -> duration (conversion operator) {r['back']}",
+                           "class": "oracle-accept-spelling", "rec": dict(base, observable="accept-spelling", impl=r)})
+    # values delivered by the accepted conversions (counts 1, -3, 7): exactly count * k
+    ratio = Fraction(s["n"], s["d"]) / Fraction(t["n"], t["d"])
+    for col, what in (("dq_val", "duration -> Quantity (generic unit)"), ("dn_val", "duration -> Quantity (named unit)"),
+                      ("qd_val", "Quantity -> duration (conversion operator)")):
+        if r.get(col, "-") == "-":
+            continue
+        stats["accepted_conversion_values"] = stats.get("accepted_conversion_values", 0) + 3
+        got = [parse_cxx(t["rep"], x) for x in r[col].split(",")]
+        for v, g in zip((1, -3, 7), got):
+            exact = v * ratio
+            if is_int(t["rep"]) or (is_int(s["rep"]) and ratio.denominator == 1 and ratio.numerator <= (1 << 20)):
+                okv = (g == exact)
+            else:
+                okv = not isinstance(g, str) and (abs(g - exact) <= abs(exact) * Fraction(1, 1 << 20) or
+                                                  rne(t["rep"], exact) in (None, 0))
+            if not okv:
+                violations.append({"what": f"accepted implicit conversion {what} of count {v} from {type_key(s)} to {type_key(t)} "
+                                           f"gives {g}, expected {exact}", "class": f"oracle-accept-value-{col}",
+                                   "rec": dict(base, observable=col, count=v, got=str(g), expected=str(exact), impl=r)})
+                break
     if (r["chrono"] == "1") != chrono_accept_oracle(t["rep"], (t["n"], t["d"]), s["rep"], (s["n"], s["d"])):
         violations.append({"what": "oracle inconsistency: chrono's own is_convertible differs from its documented rule",
                            "class": "oracle-vs-chrono-accept", "no_input": True, "broken": "independent oracle", "rec": dict(base, impl=r)})
@@ -1489,12 +1682,11 @@ def replay(path):
                                 "accept_true": 0, "accept_false": 0}, []
     if kind == "op":
         a, b = mk(r["a"], 0), mk(r["b"], 1)
-        side = 0 if r["shape"][0] in "qc" else 1
-        generic = "q" in r["shape"]
-        pr = {"id": 0, "a": a, "b": b, "side": side, "generic": generic}
+        side, spell = shape_parts(r["shape"])
+        pr = {"id": 0, "a": a, "b": b, "side": side, "spell": spell}
         x1 = int(r["x1"]) if is_int(a["rep"]) else Fraction(r["x1"])
         x2 = int(r["x2"]) if is_int(b["rep"]) else Fraction(r["x2"])
-        req = (f"c17ops {r['shape']} {a['rep']} {a['n']} {a['d']} {r['x1']} {b['rep']} {b['n']} {b['d']} {r['x2']}")
+        req = (f"c17ops {model_shape(r['shape'])} {a['rep']} {a['n']} {a['d']} {r['x1']} {b['rep']} {b['n']} {b['d']} {r['x2']}")
         mline = drv.ask([req])[0]
         print("model :", mline)
         if kv(mline).get("compiles") != "ok":
@@ -1555,8 +1747,9 @@ def replay(path):
         if kind == "opaccept":
             print("probe : is this expression accepted?  ", r.get("expression"))
         a, b = mk(r["a"], 0), mk(r["b"], 1)
-        pr = {"id": 0, "a": a, "b": b, "side": r.get("side", 0), "generic": r.get("generic", False), "vals": []}
-        sc = {(0, True): "qd", (1, True): "dq", (0, False): "cd", (1, False): "dc"}[(pr["side"], pr["generic"])]
+        side, spell = shape_parts(r.get("shape", "cd"))
+        pr = {"id": 0, "a": a, "b": b, "side": side, "spell": spell, "vals": []}
+        sc = model_shape(side_code_of(pr))
         z = lambda rep: "0"
         pr["model"] = kv(drv.ask([f"c17ops {sc} {a['rep']} {a['n']} {a['d']} 0 {b['rep']} {b['n']} {b['d']} 0"])[0])
         print("model :", pr["model"])
